@@ -150,7 +150,7 @@ Section Stored.
     - destruct (find_batch (st_batches s) key) as [b0|]; [|exact I].
       cbn. intros b Hb. right. now apply I.
     - cbn. intros b Hb. now apply in_map.
-    - destruct (chain_tid (st_chains s) chain2); [|exact I]. now apply refresh_stored_inv.
+    - destruct (chain_tid (st_chains s) chain2); [|exact I]. unfold Evidence.refresh_if_announced. destruct (c_stale_publishes g); [now apply refresh_stored_inv | exact I].
   Qed.
 
   Lemma run_from_stored_inv ops : forall s, stored_inv s -> stored_inv (run_from s ops).
@@ -232,7 +232,7 @@ Section Proofs.
       cbn. rewrite served_is_stored. apply find_batch_in in F. destruct F as [F _].
       intros x [E|Hx]; [subst x; apply I; now apply St | now apply I].
     - destruct Gk as [Gk|Gk]; [|contradiction]. cbn. rewrite Gk. apply incl_refl.
-    - destruct (chain_tid (st_chains s) chain2); [|exact I]. now apply refresh_archived_inv.
+    - destruct (chain_tid (st_chains s) chain2); [|exact I]. unfold Evidence.refresh_if_announced. destruct (c_stale_publishes g); [now apply refresh_archived_inv | exact I].
   Qed.
 
   Lemma run_from_archived_inv ops : Forall genesis_ok ops -> forall s, stored_inv s -> archived_inv s -> archived_inv (run_from s ops).
@@ -302,7 +302,7 @@ Section Proofs2.
     - destruct (find_batch (st_batches s) key); [|split; apply incl_refl].
       cbn. split; [apply incl_tl|]; apply incl_refl.
     - contradiction.
-    - destruct (chain_tid (st_chains s) chain2); [|split; apply incl_refl].
+    - destruct (chain_tid (st_chains s) chain2); [|split; apply incl_refl]. unfold Evidence.refresh_if_announced. destruct (c_stale_publishes g); [|split; apply incl_refl].
       destruct (refresh_monotone cp g s chain2 tid2) as (A & B & _). now split.
   Qed.
 
@@ -335,7 +335,7 @@ Section Proofs2.
       destruct (memz v (st_jailed s)); apply incl_refl.
     - destruct (find_batch (st_batches s) key); [|apply incl_refl]. cbn. apply incl_tl, incl_refl.
     - apply incl_refl.
-    - destruct (chain_tid (st_chains s) chain2); [|apply incl_refl]. apply refresh_monotone.
+    - destruct (chain_tid (st_chains s) chain2); [|apply incl_refl]. unfold Evidence.refresh_if_announced. destruct (c_stale_publishes g); [apply refresh_monotone | apply incl_refl].
   Qed.
 
   Theorem ever_only_grows ops : forall s, incl (st_ever s) (st_ever (run_from s ops)).
@@ -376,7 +376,7 @@ Section Proofs2.
       + intros x [E|Hx]; [now left | right; now apply I].
       + intros b Hb. right. now apply St.
     - cbn. split; [|exact St]. intros x Hx. apply in_map_iff in Hx. destruct Hx as (b0 & E & Hb). subst x. now apply St.
-    - destruct (chain_tid (st_chains s) chain2); [|now split]. now apply refresh_issued_incl_ever.
+    - destruct (chain_tid (st_chains s) chain2); [|now split]. unfold Evidence.refresh_if_announced. destruct (c_stale_publishes g); [now apply refresh_issued_incl_ever | now split].
   Qed.
 
   Theorem issued_incl_ever ops c : In c (st_issued (run ops)) -> In c (st_ever (run ops)).
@@ -444,7 +444,7 @@ Section Proofs2.
     - now exists chain, body, est, sg.
     - destruct (find_batch (st_batches s) key); contradiction.
     - contradiction.
-    - destruct (chain_tid (st_chains s) chain2); [|contradiction].
+    - destruct (chain_tid (st_chains s) chain2); [|contradiction]. unfold Evidence.refresh_if_announced in Hj. destruct (c_stale_publishes g); [|contradiction].
       destruct (refresh_frame cp g s chain2 tid2) as (_ & _ & Ej). cbn [fst] in Hj. rewrite Ej in Hj. contradiction.
   Qed.
 
@@ -576,7 +576,7 @@ Definition ex_reissued : Z := ex_cp 7 42 21000.
 Definition old_cfg : cfg :=
   {| c_build_archives := true; c_reissue_archives := false; c_rejects_archived := true; c_set_once := true;
      c_queries_stored := true; c_confirm_recomputes := true; c_genesis_archives_live := true;
-     c_redeploy_reissues := false |}.
+     c_redeploy_reissues := false; c_stale_publishes := true |}.
 
 Theorem honest_jailed_without_rearchive :
   let s := Evidence.run ex_cp ex_recover old_cfg ex_history in
@@ -616,7 +616,7 @@ Proof. cbv zeta. split; reflexivity. Qed.
 Definition recomputing_queries_cfg : cfg :=
   {| c_build_archives := true; c_reissue_archives := true; c_rejects_archived := true; c_set_once := true;
      c_queries_stored := false; c_confirm_recomputes := true; c_genesis_archives_live := true;
-     c_redeploy_reissues := false |}.
+     c_redeploy_reissues := false; c_stale_publishes := true |}.
 
 Definition ex_redeploy_history : list (op (Z * Z)) :=
   [OSetTid 1 7; OSetReg [(1, 5, 210); (1, 6, 212)]; OBuild 1 1 42; OSetTid 1 8].
@@ -684,7 +684,7 @@ Section Verified.
       destruct (memz v (st_jailed s)); exact I.
     - destruct (find_batch (st_batches s) key) as [b0|]; [|exact I]. exact I.
     - exact I.
-    - destruct (chain_tid (st_chains s) chain2); [|exact I]. now apply refresh_bts_some_id.
+    - destruct (chain_tid (st_chains s) chain2); [|exact I]. unfold Evidence.refresh_if_announced. destruct (c_stale_publishes g); [now apply refresh_bts_some_id | exact I].
   Qed.
 
   Theorem stored_bts_is_a_checkpoint ops b :
@@ -714,7 +714,7 @@ End Verified.
 Definition no_reissue_cfg : cfg :=
   {| c_build_archives := true; c_reissue_archives := true; c_rejects_archived := true; c_set_once := true;
      c_queries_stored := true; c_confirm_recomputes := true; c_genesis_archives_live := true;
-     c_redeploy_reissues := false |}.
+     c_redeploy_reissues := false; c_stale_publishes := true |}.
 
 Theorem confirm_after_redeploy_checks_unpublished :
   let s := Evidence.run ex_cp ex_recover no_reissue_cfg ex_redeploy_history in
@@ -769,8 +769,13 @@ Section Synced.
     forall b, In b (st_batches s) -> current_cp cp s b = Some (b_bts b).
 
   Definition not_stale (o : op Sig) : Prop := match o with OStaleActivate _ _ => False | _ => True end.
+  (** a stale activation is harmless when evm does not announce it *)
+  Definition stale_ok (o : op Sig) : Prop := c_stale_publishes g = false \/ not_stale o.
 
-  Lemma step_synced s o : not_stale o -> synced s -> synced (step s o).
+  Lemma stale_ok_all : c_stale_publishes g = false -> forall ops : list (op Sig), Forall stale_ok ops.
+  Proof. intros H ops. apply Forall_forall. intros o _. now left. Qed.
+
+  Lemma step_synced s o : stale_ok o -> synced s -> synced (step s o).
   Proof.
     unfold synced, Evidence.step. intros NS I.
     destruct o as [key chain body|key est|key|chain tid|reg|v|chain body est sg|key| |chain2 tid2]; cbn [Evidence.exec].
@@ -797,13 +802,14 @@ Section Synced.
       destruct (memz v (st_jailed s)); exact I.
     - destruct (find_batch (st_batches s) key) as [b0|]; [|exact I]. exact I.
     - exact I.
-    - contradiction.
+    - destruct NS as [NS|NS]; [|contradiction].
+      destruct (chain_tid (st_chains s) chain2); [|exact I]. unfold Evidence.refresh_if_announced. rewrite NS. exact I.
   Qed.
 
-  Theorem batches_synced ops : Forall not_stale ops -> synced (run ops).
+  Theorem batches_synced ops : Forall stale_ok ops -> synced (run ops).
   Proof.
     unfold Evidence.run, Evidence.run_from.
-    assert (G : forall s, Forall not_stale ops -> synced s -> synced (fold_left step ops s)).
+    assert (G : forall s, Forall stale_ok ops -> synced s -> synced (fold_left step ops s)).
     { induction ops as [|o r IH]; intros s F I; [exact I|]. inversion F; subst. cbn. apply IH; [assumption|].
       now apply step_synced. }
     intros F. apply G; [exact F | intros b []].
@@ -811,7 +817,7 @@ Section Synced.
 
   (** what ConfirmBatch verifies against is what the queries serve, whatever the two flags say *)
   Theorem confirm_checks_what_is_served ops key :
-    Forall not_stale ops -> confirm_checks_against cp g (run ops) key = served_bts cp g (run ops) key.
+    Forall stale_ok ops -> confirm_checks_against cp g (run ops) key = served_bts cp g (run ops) key.
   Proof.
     intros F. unfold confirm_checks_against, served_bts, served.
     destruct (find_batch (st_batches (run ops)) key) as [b|] eqn:Fb; [|reflexivity].
@@ -821,16 +827,30 @@ Section Synced.
   Qed.
 End Synced.
 
-(** A stale activation (contract version not above the active one) leaves the chain info alone but
-    still publishes the activation event: skyway re-issues the open batches for the id the event
-    carries.  What it publishes is archived (no C13 clause is touched), but issued <> verified again. *)
-Example stale_activation_desyncs_now :
-  let s := Evidence.run ex_cp ex_recover code_cfg
+(** A stale activation (contract version not above the active one) leaves the chain info alone.  On a
+    tree where evm still publishes the activation event for it (main before a10a974d), skyway
+    re-issues the open batches for the id the event carries: what it publishes is archived (no C13
+    clause is touched), but issued <> verified again. *)
+Definition stale_publishing_cfg : cfg :=
+  {| c_build_archives := true; c_reissue_archives := true; c_rejects_archived := true; c_set_once := true;
+     c_queries_stored := true; c_confirm_recomputes := true; c_genesis_archives_live := true;
+     c_redeploy_reissues := true; c_stale_publishes := true |}.
+
+Example stale_activation_desyncs_when_announced :
+  let s := Evidence.run ex_cp ex_recover stale_publishing_cfg
              [OSetTid 1 7; OSetReg [(1, 5, 210); (1, 6, 212)]; OBuild 1 1 42; OStaleActivate 1 9] in
-  served_bts ex_cp code_cfg s 1 = Some (ex_cp 9 42 300000) /\
-  confirm_checks_against ex_cp code_cfg s 1 = Some (ex_cp 7 42 300000) /\
+  served_bts ex_cp stale_publishing_cfg s 1 = Some (ex_cp 9 42 300000) /\
+  confirm_checks_against ex_cp stale_publishing_cfg s 1 = Some (ex_cp 7 42 300000) /\
   In (ex_cp 9 42 300000) (st_archive s) /\ In (ex_cp 7 42 300000) (st_archive s).
 Proof. cbv zeta. split; [reflexivity|]. split; [reflexivity|]. split; vm_compute; auto. Qed.
+
+(** The code as it is: a stale activation is not announced and changes nothing at all in skyway. *)
+Theorem stale_activation_is_a_noop {Sig : Type} (cp : Z -> Z -> Z -> Z) (recover : Z -> Sig -> option addr) (g : cfg) s chain tid :
+  c_stale_publishes g = false -> Evidence.step cp recover g s (OStaleActivate chain tid) = s.
+Proof.
+  intros H. unfold Evidence.step. cbn [Evidence.exec]. destruct (chain_tid (st_chains s) chain); [|reflexivity].
+  unfold refresh_if_announced. now rewrite H.
+Qed.
 
 (** ** Chain restart from an exported genesis.  The PastEthSignatureCheckpoint set is not part of
     skyway's GenesisState; the batch records are, BytesToSign included.  An InitGenesis that does
@@ -839,11 +859,11 @@ Proof. cbv zeta. split; [reflexivity|]. split; [reflexivity|]. split; vm_compute
 Definition unarchiving_genesis_cfg : cfg :=
   {| c_build_archives := true; c_reissue_archives := true; c_rejects_archived := true; c_set_once := true;
      c_queries_stored := true; c_confirm_recomputes := true; c_genesis_archives_live := false;
-     c_redeploy_reissues := true |}.
+     c_redeploy_reissues := true; c_stale_publishes := false |}.
 Definition archiving_genesis_cfg : cfg :=
   {| c_build_archives := true; c_reissue_archives := true; c_rejects_archived := true; c_set_once := true;
      c_queries_stored := true; c_confirm_recomputes := true; c_genesis_archives_live := true;
-     c_redeploy_reissues := true |}.
+     c_redeploy_reissues := true; c_stale_publishes := false |}.
 
 Definition ex_genesis_history : list (op (Z * Z)) :=
   [OSetTid 1 7; OSetReg [(1, 5, 210); (1, 6, 212)]; OBuild 1 1 42; OGenesis].
@@ -917,7 +937,7 @@ Section Ever.
       destruct (memz v (st_jailed s)); exact E.
     - destruct (find_batch (st_batches s) key) as [b0|]; [|exact E]. cbn. now rewrite E.
     - contradiction.
-    - destruct (chain_tid (st_chains s) chain2); [|exact E]. now apply refresh_ever_eq.
+    - destruct (chain_tid (st_chains s) chain2); [|exact E]. unfold Evidence.refresh_if_announced. destruct (c_stale_publishes g); [now apply refresh_ever_eq | exact E].
   Qed.
 
   Theorem ever_is_issued_without_genesis ops :
